@@ -50,7 +50,7 @@ def stepComp (a : All) (comp : String) (op impl : List String) : All × Option S
   | "rq" => let (s, r, e) := Rq.step a.rq op impl; ({ a with rq := s }, some r, e.toList)
   | "gen" => (a, some (GenX.step op), (GenX.pred op impl).toList)
   | "e2e" => let (s, v) := E2E.step a.e2e op impl; ({ a with e2e := s }, none, v)
-  | "as" => let (s, v) := Assoc.step a.assoc op impl; ({ a with assoc := s }, none, v)
+  | "as" => let (s, r, v) := Assoc.step a.assoc op impl; ({ a with assoc := s }, r, v)
   | "hs" => let (s, r, e) := HsD.step a.hs op impl; ({ a with hs := s }, some r, e.toList)
   | "rto" => let (s, r, e) := Tm.rtoStep a.rto op impl; ({ a with rto := s }, some r, e.toList)
   | "timer" => let (s, r, e) := Tm.step a.timer op impl; ({ a with timer := s }, some r, e.toList)
